@@ -1,59 +1,63 @@
 import NaijaVerif.Model.Eval
 import NaijaVerif.Lemmas.AnalysisNoTrap
+import NaijaVerif.Lemmas.AnalysisRefineOk
 /-
 BRIDGE from the C03 evaluator fragment (`Model/AnalysisEval.lean`, abstract primitives) to the
-shared evaluator model (`Model/Eval.lean`).  STATED ONLY: `BridgeToEval` below is a `def … : Prop`;
-it is not proved, it is not imported by `Props/C03.lean`, and no theorem uses it as a hypothesis.
+shared evaluator model (`Model/Eval.lean`), which is tied to the real runtime by the `run` stream.
 
-What has to be supplied for the C03 theorems to transfer to `Eval.run`:
+`BridgeToEval` below is the statement; it is PROVED as `bridge_to_eval` in
+`Lemmas/AnalysisRefineTop.lean` (files `Lemmas/AnalysisRefine*.lean`: state relation `StSim`, result
+relation `RSim`, "eventually constant" combinators `Ev`, the simulation `bsim` by induction on the
+fragment's fuel).  The CONVERSE is proved as well (`bridge_from_eval`, simulation `rsim` by induction on
+`Eval`'s fuel, files `Lemmas/AnalysisRefineRev*.lean`): on annotated programs the two evaluators are
+equivalent up to fuel.  What the statement says and assumes:
 
-* a `Prims (Eval.Value N)` instance `P` whose fields are `Eval`'s own primitive steps:
-  `node e vs`      = the value / runtime error `Eval.evalExpr` computes for the node `e` once its
-                     operands have the values `vs` (literals, `binop`, `unop`, `indexValue`, array and
-                     string construction with the interpolated values appended, non-mutating methods);
-  `falsy`/`truthy`/`logicRhs`/`logicShort`/`cond` = the `and`/`or`/condition cases of `Eval`;
-  `isGlobal`/`isShout`/`global` = `GlobalB.ofName` / `shout` / `typeof`, `to_string`, `command`, `read_line`
-                     (`read_line` consumes `State.input`, which the fragment does not model: the
-                     bridge is for programs without `read_line`);
-  `isMut`/`mutMember`/`setPath` = the l-value path of `push`/`pop`/`reverse`, the command setters
-                     and index assignment;
-  `Err.rt k` ↔ `Outcome.rt`, `Err.unbound` ↔ `RtKind.undefinedVariable`, `Err.panic` ↔ `Outcome.panic`
-  (with `cfg.panics = false` the panic sites report `PanicSite.fallback`), `Err.fuel` ↔ `fuelOut`;
-* `Lawful P ty` for `ty v t` = "`v` is a number / string / bool / null value";
-* `cfg.lookup = .dynamicWholeStack` (the fragment searches the whole dynamic stack by `LocalId`; the
-  declaring-scope lookup being introduced in `Eval` agrees with it on well-scoped programs — that is
-  C04's theorem, not C03's);
-* fuel: the two evaluators count fuel differently (the fragment decrements on every syntactic
-  level and every list element), so the statement is "for every run of one that does not end in fuel
-  there is a fuel for the other with the same observable result".
+* the fragment is instantiated with `evalPrims cfg ds ss` (`Model/AnalysisPrims.lean`): `Eval`'s own
+  primitive steps (`Lawful` by `evalPrims_lawful`; the same instance the `arun` stream runs against the
+  real runtime);
+* `cfg.lookup = .dynamic` (the code since the D-04 fix: a bound reference is looked up only in the most
+  recent instance of its declaring scope — the fragment does the same with scope tags),
+  `cfg.panics = false` (the current code), `cfg.input = []` (the fragment has no `read_line` input);
+* the program is annotated (`okBlock o prog`, `Lemmas/AnalysisRefineOk.lean`: every reference, target,
+  parameter, statement and user call carries its id) and the oracle `o` is sound (`OrcOk`: number
+  lexemes parse; the scope tag of every block / parameter list is the declaring scope of exactly its
+  own declarations; distinct function ids per block).  `orcOf` (`Lemmas/AnalysisRefineTop.lean`)
+  computes the oracle from the facts; the driver evaluates `okBlock (orcOf …)` on every case of the tie;
+* `Err.rt k` ↔ `Outcome.rt`, `Err.unbound` ↔ `RtKind.undefinedVariable`, `Err.panic` ↔ `Outcome.panic`
+  (residual sites), `Err.fuel` ↔ `fuelOut`;
+* fuel: the two evaluators count fuel differently, so the statement is "a run of the fragment that is
+  not cut short by its fuel is matched by the run of `Eval` for some (all sufficiently large) fuel".
 -/
 namespace NaijaVerif.C03
 open NaijaVerif
 
-/-- Printed values and the class of the ending of an `Eval` run. -/
+/-- Printed values and the ending of an `Eval` run: `0` normal, `2` a crash of the interpreter,
+`10 + code` the runtime error of that kind (spans are not compared: the fragment does not keep them). -/
 def evalObs {N : Type} : Eval.Outcome N → Option (List (Eval.Value N) × Nat)
   | .ok out => some (out, 0)
-  | .rt _ _ out => some (out, 1)
+  | .rt k _ out => some (out, 10 + rtCode k)
   | .panic _ out => some (out, 2)
   | .fuelOut => none
 
-/-- The same for a run of the fragment (output is kept newest first there). -/
+/-- The same for a run of the fragment (output is kept newest first there; `Err.unbound` is the
+runtime error `Undefined variable`). -/
 def fragObs {V : Type} (r : AEval.R V (AEval.Flow V)) : Option (List V × Nat) :=
   match r.1 with
   | .ok _ => some (r.2.out.reverse, 0)
-  | .error (.rt _) | .error .unbound => some (r.2.out.reverse, 1)
+  | .error (.rt k) => some (r.2.out.reverse, 10 + k)
+  | .error .unbound => some (r.2.out.reverse, 10 + rtCode .undefinedVariable)
   | .error .panic => some (r.2.out.reverse, 2)
   | .error .fuel => none
 
 def toEvalPlan (p : Analysis.Plan) : Eval.Plan := { stmts := p.stmts, fns := p.fns }
 
-/-- BRIDGE STATEMENT (not proved; not used anywhere as a hypothesis). -/
+/-- **BRIDGE STATEMENT** (proved: `bridge_to_eval`, `Lemmas/AnalysisRefineTop.lean`). -/
 def BridgeToEval : Prop :=
-  ∀ (N : Type) [NumOps N] (cfg : Eval.RunCfg), cfg.lookup = .dynamicWholeStack → cfg.input = [] →
-    ∃ (P : AEval.Prims (Eval.Value N)) (ty : Eval.Value N → Analysis.LTy → Prop), Lawful P ty ∧
-      ∀ (prog : Block) (plan : Option Analysis.Plan) (fuel : Nat),
-        fragObs (AEval.run P plan fuel prog) ≠ none →
-        ∃ fuel', evalObs (Eval.run (N := N) { cfg with plan := plan.map toEvalPlan } fuel' prog) =
-          fragObs (AEval.run P plan fuel prog)
+  ∀ (N : Type) [NumOps N] (cfg : Eval.RunCfg) (ds ss : Nat → Option Nat) (o : Orc),
+    cfg.lookup = .dynamic → cfg.panics = false → cfg.input = [] → OrcOk N ds ss o →
+    ∀ (prog : Block) (plan : Option Analysis.Plan) (fuel : Nat), okBlock o prog = true →
+      fragObs (AEval.run (evalPrims (N := N) cfg ds ss) plan fuel prog) ≠ none →
+      ∃ fuel', evalObs (Eval.run (N := N) { cfg with plan := plan.map toEvalPlan } fuel' prog) =
+        fragObs (AEval.run (evalPrims (N := N) cfg ds ss) plan fuel prog)
 
 end NaijaVerif.C03
